@@ -1166,4 +1166,78 @@ Section Main.
         * cbn. rewrite (infl_upd _ _ _ Lt), Hfl. apply Permutation_refl.
   Qed.
 
+  (* ================= every step ================= *)
+  Theorem ustep_inv st t c0 :
+    UInv st -> call_valid2 (m2_up st) c0 -> UInv (fst (ustep g policy st t c0)).
+  Proof.
+    intros UI V. destruct (nth_error (m2_pool st) t) as [[l|c p k|z c]|] eqn:Ht.
+    - eapply step_start; eassumption.
+    - destruct p; try (eapply step_access; [exact UI|exact Ht|discriminate]). eapply step_low; eassumption.
+    - unfold ustep. rewrite Ht. exact UI.
+    - unfold ustep. rewrite Ht. exact UI.
+  Qed.
+
+  (* the static parts of the shared state never change *)
+  Lemma static_trans u1 u2 u3 : static_eq u1 u2 -> static_eq u2 u3 -> static_eq u1 u3.
+  Proof.
+    intros (A1 & A2 & A3 & A4) (B1 & B2 & B3 & B4). split; [congruence|]. split; [intros c; rewrite B2; apply A2|].
+    split; congruence.
+  Qed.
+
+  Lemma prim_step_static u p : static_eq u (fst (fst (prim_step g policy u p))).
+  Proof.
+    destruct p as [i|i f0|i f0 cur j a|i f0 cur new|cl idx f0|cl idx f0 cur new|cl idx new|th]; cbn [prim_step].
+    - destruct (tree_at u i); apply static_refl.
+    - destruct (tree_at u i); apply static_refl.
+    - destruct (nth_error _ _); apply static_refl.
+    - destruct (tree_at u i); [|apply static_refl]. destruct (tree_eqb _ _); [apply static_set_tree|apply static_refl].
+    - destruct (UpperMachine.slot_at u cl idx); apply static_refl.
+    - destruct (UpperMachine.slot_at u cl idx); [|apply static_refl]. destruct (slot_eqb _ _); [apply static_set_slot|apply static_refl].
+    - destruct (UpperMachine.slot_at u cl idx); [apply static_set_slot|apply static_refl].
+    - destruct th as [l|c pc|z c]; try apply static_refl.
+      pose proof (step_frames g WF (m1_view u (TRun c pc)) 0 c) as Ef.
+      destruct (mstep g (m1_view u (TRun c pc)) 0 c) as [ms' ev]. cbn [fst] in Ef.
+      assert (S : static_eq u (with_low u {| frames := ms_frames ms'; bfs := ms_bfs ms'; ents := ms_ents ms' |})).
+      { unfold static_eq. cbn. repeat split. exact Ef. }
+      destruct (nth_error (ms_pool ms') 0) as [[[[x|x|x]|]|c' p'|z c']|]; exact S.
+  Qed.
+
+  Lemma ustep_static st t c0 : static_eq (m2_up st) (m2_up (fst (ustep g policy st t c0))).
+  Proof.
+    unfold ustep. destruct (nth_error (m2_pool st) t) as [[l|c p k|z c]|]; try apply static_refl.
+    - assert (S : forall s1, m2_up s1 = m2_up st -> forall x, static_eq (m2_up st) (m2_up (apply_settled s1 t c0 x))).
+      { intros s1 E x. destruct x as [p k|r|z]; cbn [apply_settled]; [rewrite <- E; apply static_refl| |rewrite <- E; apply static_refl].
+        unfold ufinish. destruct c0 as [fr rq| | |]; try (rewrite <- E; apply static_refl).
+        destruct r as [[a b]|e|z]; rewrite <- E; apply static_refl. }
+      destruct c0 as [fr r|f r| |m ch]; cbn [fst]; try (apply S; reflexivity).
+      destruct (client_take _ _ _); cbn [fst]; [apply S; reflexivity|apply static_refl].
+    - pose proof (prim_step_static (m2_up st) p) as PS.
+      destruct (prim_step g policy (m2_up st) p) as [[u' ev] o]. cbn [fst] in *.
+      destruct o as [p'|v|z]; try exact PS.
+      destruct (settle g policy SETTLE u' (ARet v k)) as [p' k'|r|z]; cbn [apply_settled]; try exact PS.
+      unfold ufinish. destruct c as [fr rq| | |]; try exact PS. destruct r as [[a b]|e|z]; exact PS.
+  Qed.
+
+  Lemma check_static u u' f r : static_eq u u' -> check g u' f r = check g u f r.
+  Proof. intros (_ & A & B & _). unfold check. rewrite A, B. reflexivity. Qed.
+  Lemma call_valid2_static u u' c : static_eq u u' -> call_valid2 u c -> call_valid2 u' c.
+  Proof.
+    intros SE (V & P). split.
+    - destruct c as [fr r|f r| |]; cbn [call_valid] in *; try exact V; intros l len El Ec;
+        apply (V l len El); rewrite <- (proj1 (proj2 SE)); exact Ec.
+    - destruct c; try exact P. rewrite (check_static _ _ _ _ SE). exact P.
+  Qed.
+
+  (* schedules: every call that may be started has valid parameters with respect to the static configuration *)
+  Definition sched_valid (u : upper) (sch : list (nat * ucall)) : Prop :=
+    Forall (fun tc => call_valid2 u (snd tc)) sch.
+
+  Theorem urun_inv sch : forall st, UInv st -> sched_valid (m2_up st) sch -> UInv (urun g policy sch st).
+  Proof.
+    induction sch as [|[t c] sch IH]; intros st UI SV; [exact UI|]. inversion SV as [|? ? V1 V2]; subst. cbn [snd] in V1.
+    cbn [urun fold_left fst snd]. apply IH.
+    - apply ustep_inv; assumption.
+    - eapply Forall_impl; [|exact V2]. intros tc. apply call_valid2_static. apply ustep_static.
+  Qed.
+
 End Main.
